@@ -284,9 +284,24 @@ class Body:
             if k == "goto":
                 out.append((t["t"], None))
             elif k == "switch":
-                for v, bb in t["v"]:
-                    out.append((bb, v))
-                out.append((t["o"], "otherwise"))
+                kc = op_const(t["d"])
+                if kc is None:
+                    pd = op_place(t["d"])
+                    if pd is not None and len(pd) == 1:
+                        for st in b["s"]:
+                            if st["d"] == [pd[0]]:
+                                kc = op_const(st["r"]["o"][0]) if st["r"]["k"] == "use" else None
+                if kc is not None and kc.get("int") is None and kc.get("repr") in ("true", "false"):
+                    kc = dict(kc, int="1" if kc["repr"] == "true" else "0")
+                if kc is not None and kc.get("int") is not None:
+                    # switch on a literal (`cfg!(debug_assertions)` in the analysed dev profile):
+                    # only the matching edge exists
+                    hit = [bb for v, bb in t["v"] if v == kc["int"]]
+                    out.append((hit[0], kc["int"]) if hit else (t["o"], "otherwise"))
+                else:
+                    for v, bb in t["v"]:
+                        out.append((bb, v))
+                    out.append((t["o"], "otherwise"))
             elif k in ("drop", "assert", "false_edge", "false_unwind"):
                 out.append((t["t"], None))
             elif k == "call":
